@@ -529,6 +529,19 @@ def c12_monitor(case, frames):
             if ch in cur["sent"]:
                 return ("channel %s used twice in the cycle at event %d" % (ch, cur["begin"]), "double-exchange")
             cur["sent"][ch] = w
+            # the width a decorator asks for includes its minimum width and its extra-space flag
+            tg = tag_of.get(ch)
+            if tg is not None and all(ord(x) < 128 for x in txt):
+                b, side, o = tg
+                if txt.startswith("#"):
+                    W, extra = int([l for l in case["hdr"][1:] if int(l.split()[1]) == b][0].split()[9]), False
+                else:
+                    kk = int(txt.split(":")[0].split(".")[2])
+                    W, extra = (b * 3 + kk * 5) % 13, (b + kk) % 3 == 0
+                want = W if W > len(txt) else len(txt) + (1 if extra else 0)
+                if w != want:
+                    return ("decorator %s of bar %d asked for width %d, its text %r with minimum width %d and extra space %s needs %d"
+                            % (tg[1:], b, w, txt, W, extra, want), "decorator-need-width")
         elif k == "WC_GOT":
             cur["got"][a[1]] = int(a[0])
         elif k == "DIST_COLLECTED":
